@@ -522,16 +522,31 @@ class MonC09(Monitor):
 
         with warnings.catch_warnings():
             warnings.simplefilter("ignore")
+            from pulser import Sequence as _Seq
+
             for name, fn in (
                 ("build", lambda: seq.build()),
                 ("switch_register", lambda: seq.switch_register(ls.real.dev.register)),
+                ("abstract-repr", lambda: _Seq.from_abstract_repr(seq.to_abstract_repr())),
             ):
                 try:
                     other = fn()
                 except Exception as e:  # noqa: BLE001
+                    if name == "abstract-repr":
+                        continue        # what can be serialised at all is C04's clause; here: a copy that EXISTS is identical
                     fails.append(self.F("replay-raises", f"{name} raised {type(e).__name__}: {str(e)[:80]}", op=name))
                     continue
-                d = diff_snap(snap_of(other), orig, "", 1e-9)
+                so, oo = snap_of(other), orig
+                if name == "abstract-repr":
+                    # (the decoder records an initial target as a call of its own: the timeline is what is compared)
+                    # and declares the channels before it configures the detuning maps: channel ORDER is not
+                    # part of a timeline (C04 compares the documents)
+                    so, oo = dict(so), dict(oo)
+                    so.pop("ncalls", None)
+                    oo.pop("ncalls", None)
+                    so["chans"] = sorted(so["chans"], key=lambda c: c["name"])
+                    oo["chans"] = sorted(oo["chans"], key=lambda c: c["name"])
+                d = diff_snap(so, oo, "", 1e-9)
                 if d:
                     fails.append(self.F("replay-differs", f"{name} gives a different sequence: {d}", op=name))
                 # a copy reproduces the calls of the original and shares no state with it:
